@@ -5,6 +5,7 @@
 import Nlmodel.Model.Object
 import Std.Tactic.BVDecide
 import Nlmodel.Proofs.Lemmas.Utf8All
+import Nlmodel.Proofs.Lemmas.Utf8Strict
 namespace Nl
 namespace C15
 open Obj
@@ -167,6 +168,12 @@ theorem C15_text_bytes_roundtrip (cs : Text) : Utf8.decode (Utf8.encode cs) = so
 
 /-- different texts have different bytes (so bytewise `==` never identifies two different texts), equal texts equal bytes -/
 theorem C15_text_bytes_injective (a b : Text) : Utf8.byteEq (Utf8.encode a) (Utf8.encode b) = (a == b) := Utf8.byteEq_encode a b
+
+/-- the decoder is STRICT (second audit, item g): it accepts a byte string exactly when it is the encoding of a text — overlong
+    forms, surrogates, values above 0x10FFFF, truncated sequences and stray continuation bytes are rejected — so the byte strings the
+    text theorems of C13/C14/C06 speak about (`encode cs`) are exactly the well-formed UTF-8 strings, i.e. every Rust `str` -/
+theorem C15_text_bytes_decoder_is_strict (bs : List UInt8) (cs : Text) : Utf8.decode bs = some cs ↔ bs = Utf8.encode cs :=
+  Utf8.decode_eq_some_iff bs cs
 
 end C15
 end Nl
